@@ -42,7 +42,6 @@ CFG = {
         "Swat4.C01.facts_ok",
         "Swat4.C01.facts_parse_ok",
         "Swat4.C01.known_nulFree",
-        "Swat4.C01.gameKey_eq",
         "Swat4.BrowserReqBridge.newRequest_eq",
         "Swat4.BrowserReqBridge.facts_agree",
         # C01 ∘ C03: the handler as one function of the request bytes and the registry
@@ -58,21 +57,13 @@ CFG = {
         "Swat4.C01.clausesOf_parsed",
         "Swat4.C01.clausesOf_text",
         "Swat4.C01.clausesOf_malformed",
-        "Swat4.C01.selected_blank",
-        "Swat4.C01.expectedList_entries",
-        "Swat4.C01.readBuffer_eq",
         "Swat4.BrowserE2E.schemas_agree",
         "Swat4.BrowserE2E.wellTyped_infoVals",
         "Swat4.BrowserE2E.paramValue_infoVals",
         "Swat4.BrowserE2E.entryOf_eq",
-        "Swat4.BrowserE2E.listServers_eq_filter_keeps",
         "Swat4.BrowserE2E.listStored_row",
         "Swat4.BrowserE2E.listStored_perm",
-        "Swat4.BrowserE2E.browserHandle_ok",
-        "Swat4.BrowserE2E.browserHandle_error",
         "Swat4.C01.E2EExample.plaintext_decodes",
-        "Swat4.C01.E2EExample.reply_decodes",
-        "Swat4.C01.E2EExample.reply_decodes_malformed",
         # "integers in decimal": Browsing.decimal (shared with the reference renderer) characterised on its own
         "Swat4.C01.decimal_spec",
         "Swat4.C01.decimal_atoi",
@@ -81,6 +72,19 @@ CFG = {
         "Swat4.C01.decimal_eq_renderInt",
         "Swat4.C01.facts_browser_read_buffer",
         "Swat4.C01.facts_partial_ops_browser",
+    ],
+    # proved in the Lean files and used by other proofs, but NOT audited as property theorems: each is a
+    # read-back of a definition, glue between two names, true by type, or a corollary of an audited theorem
+    "supporting": [
+        {"name": "Swat4.C01.gameKey_eq", "why": "read-back of the definition (`rfl`: two names of the same constant)"},
+        {"name": "Swat4.C01.readBuffer_eq", "why": "read-back of the definition (`rfl`: two spellings of the read-buffer size)"},
+        {"name": "Swat4.C01.expectedList_entries", "why": "read-back of the definition (unfolds `expectedList`; used by browser_lists_only/all_matching)"},
+        {"name": "Swat4.C01.selected_blank", "why": "read-back of the definition (`FilterSpec.selected` unfolded for the empty clause list)"},
+        {"name": "Swat4.BrowserE2E.browserHandle_ok", "why": "glue (unfolds `browserHandle` under the hypothesis that the payload parses)"},
+        {"name": "Swat4.BrowserE2E.browserHandle_error", "why": "glue (unfolds `browserHandle` under the hypothesis that the payload is rejected)"},
+        {"name": "Swat4.BrowserE2E.listServers_eq_filter_keeps", "why": "glue (`Filter.listServers` rewritten as one `List.filter`; used by keeps_eq_matching)"},
+        {"name": "Swat4.C01.E2EExample.reply_decodes", "why": "redundant: instance of the audited `browser_end_to_end` on the sample registry (derived from the theorem, not evaluated; the evaluated witness is `plaintext_decodes`)"},
+        {"name": "Swat4.C01.E2EExample.reply_decodes_malformed", "why": "redundant: instance of the audited `browser_end_to_end` on the sample registry with a malformed filter (derived, not evaluated)"},
     ],
     "shards": (4, 16),
     "nontrivial": _c01_nontrivial,
